@@ -88,12 +88,13 @@ class Scanner:
             return match[0]
         return None
 
-    def scan_until(self, pattern: re.Pattern[str]) -> str | None:
+    def scan_until(self, pattern: re.Pattern[str]) -> str:
         match = pattern.search(self.grammar, self.pos)
         if match:
             self.pos = match.start()
             return self.grammar[self.start : match.start()]
-        return None
+        self.pos = len(self.grammar)
+        return self.grammar[self.start :]
 
     def skip(self, pattern: re.Pattern[str]) -> bool:
         match = pattern.match(self.grammar, self.pos)
@@ -137,11 +138,7 @@ class Scanner:
         if self.peek() in (" ", "\t"):
             self.next()
 
-        if value := self.scan_until(RE_NEWLINE):
-            self.emit(TokenKind.COMMENT_TEXT, value)
-        else:
-            # Empty comment text
-            self.emit(TokenKind.COMMENT_TEXT, "")
+        self.emit(TokenKind.COMMENT_TEXT, self.scan_until(RE_NEWLINE))
 
         return self.scan_grammar
 
@@ -193,11 +190,7 @@ class Scanner:
         if self.peek() in (" ", "\t"):
             self.next()
 
-        if value := self.scan_until(RE_NEWLINE):
-            self.emit(TokenKind.COMMENT_TEXT, value)
-        else:
-            # Empty comment text
-            self.emit(TokenKind.COMMENT_TEXT, "")
+        self.emit(TokenKind.COMMENT_TEXT, self.scan_until(RE_NEWLINE))
 
         return self.scan_grammar_rule
 
